@@ -458,6 +458,11 @@ def run_check(mod, tier, seed, replay_path=None):
     }
     if "leanchecker" in proof:
         cov["leanchecker"] = proof["leanchecker"]
+    if proof["discharged"] < 1 or proof["discharged"] != proof["obligations"]:
+        # the proof-level keys are only claimed when every obligation is discharged; otherwise the
+        # run is reported through the exploration-style counts (and as a violation)
+        cov["obligations_total"] = cov.pop("obligations")
+        cov["obligations_discharged"] = cov.pop("discharged")
     ev = {
         "property_id": pid, "tier": tier, "seed": seed, "level": "proof",
         "coverage": cov,
